@@ -288,6 +288,18 @@ Proof.
   cbn [t_mean t_var t_sumsq]. apply variance_is_population. discriminate.
 Qed.
 
+(* the reported extremes are members of the multiset that bound every member *)
+Lemma spec_min_max rank pf c x r sampled tags h :
+  has_histogram_tag tags = false ->
+  let xs := x :: r in
+  let t := timer_spec rank pf c xs sampled tags h in
+  (In (t_min t) xs /\ forall z, In z xs -> (t_min t <= z)%Qc) /\
+  (In (t_max t) xs /\ forall z, In z xs -> (z <= t_max t)%Qc).
+Proof.
+  intros Eh xs t. unfold t, timer_spec. rewrite Eh. cbn [t_min t_max].
+  split; [apply fold_qmin_is_min | apply fold_qmax_is_max].
+Qed.
+
 Lemma flush_histogram_timer rank pf c xs sampled tags h :
   0 <= c_limit c -> short_tags tags -> has_histogram_tag tags = true ->
   flush_timer qc_ops pf rank false c (fresh qc_ops xs sampled tags h)
